@@ -5,7 +5,7 @@ From V Require Import UDial.Model UDial.Proofs.   (* C02's model of the dial: sp
 From V Require Import Gen.Params Lib.Hex Wire.Varint USpec.Model USpec.Proofs USpec.ProofsShuffle
   USpec.ProofsWire USpec.ProofsFp USpec.ProofsDial.   (* [dial] below is USpec.Model.dial *)
 From V Require UFrames.Model UFrames.Proofs UPacker.Model UPacker.ProofsRandom USpec.ProofsBuilder.
-From V Require USpec.RunDial USpec.RunFp USpec.ProofsFpCase USpec.ProofsFrameBytes.
+From V Require USpec.RunDial USpec.RunFp USpec.ProofsFpCase USpec.ProofsFrameBytes USpec.HistoryModel USpec.History.
 Import ListNotations.
 Open Scope Z_scope.
 
@@ -133,6 +133,55 @@ Theorem C11_dial_k_any_order : forall st ops1 scid target,
              wire_list (sSup (edits st ops1)) true js scid (sParams st) = map idval (map (fill scid) target).
 Proof. exact dial_k_any_order. Qed.
 Print Assumptions C11_dial_k_any_order.
+
+(** Round 8 (audit P3).  Histories that also contain calls of QUICSpec.TransportParamIDs()
+    ([HistoryModel.hop]: dial / set suppression list / set randomize flag / IDs()).  Since the
+    repair fixes/C11-transport-parameter-ids-on-a-copy.patch the method computes on a copy, so
+    for the dials a history with IDs() calls is the same history without them ... *)
+Theorem C11_hrun_erase : forall ops st,
+  match HistoryModel.hrun st ops, run st (HistoryModel.erase_ids ops) with
+  | Some (st1, outs), Some (st2, views) => st1 = st2 /\ HistoryModel.wires_of outs = views
+  | None, None => True
+  | _, _ => False
+  end.
+Proof. exact History.hrun_erase. Qed.
+Print Assumptions C11_hrun_erase.
+
+(** ... C11_dial_k_wire holds for every dial of every such history ... *)
+Theorem C11_hdial_k_wire : forall st ops1 scid o ops2 st' outs,
+  wf_spec st -> zlen scid <= maxVarInt8 ->
+  HistoryModel.hrun st (ops1 ++ HistoryModel.HDial scid o :: ops2) = Some (st', outs) ->
+  let cur := History.hedits st ops1 in
+  exists w,
+    nth_error (HistoryModel.wires_of outs) (count_dials (HistoryModel.erase_ids ops1)) = Some (scid, w) /\
+    parse (wExt w) = Some (wire_list (sSup cur) (sRnd cur) (oJs o) scid (sParams st)) /\
+    (if sRnd cur
+     then Permutation (suppress (sSup cur) (sParams st)) (dial_list (sSup cur) (sRnd cur) (oJs o) (sParams st))
+     else dial_list (sSup cur) (sRnd cur) (oJs o) (sParams st) = suppress (sSup cur) (sParams st)).
+Proof. exact History.hdial_k_wire. Qed.
+Print Assumptions C11_hdial_k_wire.
+
+(** ... and every IDs() call returns the canonical ids of the spec AS WRITTEN under the
+    suppression list in force at that point (by C11_ids_canonical: of what a dial at that point
+    sends), whatever calls and dials came before, and the spec keeps its list. *)
+Theorem C11_hist_ids : forall ops1 st ops2 st' outs,
+  HistoryModel.hrun st (ops1 ++ HistoryModel.HIds :: ops2) = Some (st', outs) ->
+  nth_error (History.ids_outs outs) (History.count_ids ops1) =
+    Some (fst (tp_ids (sSup (History.hedits st ops1)) (sParams st))) /\ sParams st' = sParams st.
+Proof. exact History.hrun_ids_prefix. Qed.
+Print Assumptions C11_hist_ids.
+
+(** Before the repair (model [hrun_legacy]: the method suppressed on the spec's own list) the
+    history  suppress [4]; IDs(); suppress []; dial  sent [1; 9] although the spec as written
+    has parameter 4 and nothing is suppressed: C11_dial_k_wire REFUTED for that code.  The
+    repaired model sends [4; 1; 9].  (Replayed on the code by unit uspecdial, monitor
+    uspecdial/ids-mutates-spec.) *)
+Theorem C11_ids_legacy_refuted :
+  option_map (fun r => History.wire_ids (snd r)) (HistoryModel.hrun_legacy History.p3_spec History.p3_history) = Some [Some [1; 9]] /\
+  option_map (fun r => History.wire_ids (snd r)) (HistoryModel.hrun History.p3_spec History.p3_history) = Some [Some [4; 1; 9]] /\
+  wire_list [] false [] [] (sParams History.p3_spec) = [(4, [5]); (1, [7]); (9, [3])].
+Proof. exact History.p3_legacy_refuted. Qed.
+Print Assumptions C11_ids_legacy_refuted.
 
 (** the reader inverts the marshaller on every encodable list *)
 Theorem C11_parse_marshal : forall ps, Forall wfp ps -> parse (marshal ps) = Some (map idval ps).
